@@ -133,6 +133,31 @@ INFO = {
              "field_type='vector' 3D ENO3 advection (PassiveTransportFlowSimulator 3D vector), non-uniform field, non-zero velocity"),
     "C20e": ("SSP-RK3 stretching kernel: after merging two aliases the third-stage flux is evaluated on the step's input vorticity",
              "SSP-RK3 stretching with a velocity whose stretching operator is not nilpotent and a step large enough for the A^2 term"),
+    # ---- round 6 (seeded/<id>f)
+    "C01f": ("3D forced step: body force added to u x omega before ONE curl (`curl is linear`), instead of updating the vorticity from the forcing first",
+             "3D, with_forcing, non-zero forcing field with non-zero discrete curl and a non-zero velocity (the lost term is O(dt^2))"),
+    "C03f": ("2D Green's-function table built from per-axis reflected separation vectors, both reflected about 2*x_range",
+             "2D solver on a non-square grid (wide: wrong values; tall: inf in the table)"),
+    "C06f": ("3D vector interpolation de-duplicated into a loop; the hoisted z start index is taken from the y cell index",
+             "3D, n_components=3 interpolation, a marker whose y and z cell indices differ, a field varying along z"),
+    "C08f": ("element-centric rod grid: the zero-fill of body_flow_forces dropped, left shares assigned, right shares subtracted: the last node is never reset",
+             "element-centric grid, second and later evaluations into the same persistent array"),
+    "C09f": ("element-centric rod grid: element-centre velocity as a plain (end-corrected) average of the node velocities instead of the mass-weighted one",
+             "rod with non-uniform nodal masses (taper, non-uniform element lengths) and node velocities varying along the rod"),
+    "C10f": ("VirtualBoundaryForcing.__init__: keyword parameters enable_eul_grid_forcing_reset and num_threads listed in the opposite order, while ImmersedBodyFlowInteraction forwards them positionally",
+             "RigidBody/CosseratRod/ImmersedBodyFlowInteraction with exactly one of the two options set and a non-zero shared Eulerian forcing field"),
+    "C11f": ("3D vector_field_solve loops over the components and skips a component whose right-hand side is identically zero, leaving the output component untouched",
+             "a zero right-hand-side component and an output array that is not zero on entry (reused from step to step)"),
+    "C13f": ("2D boundary-zone damping regrouped `one side at a time` (front fill, front ramp, back fill, back ramp)",
+             "a grid narrower than two zone widths along an axis (2*width > n+1): the back fill reads a column the front ramp has already scaled"),
+    "C16f": ("2D Navier-Stokes compute_stable_timestep memoises its result per time level",
+             "two evaluations on one simulator at the same sim.time with the velocity (or viscosity / cfl) changed in between"),
+    "C17f": ("IO.load guards the Lagrangian section with `if self.lagrangian_fields` instead of `if self.lagrangian_grids`",
+             "a registry with Lagrangian grids but no Lagrangian field on any grid"),
+    "C18f": ("restart helper compares flow and body time with np.isclose (default tolerances)",
+             "late in a long run (t > dt / 1e-5): a flow checkpoint one step away from the body state is accepted"),
+    "C19f": ("3D boundary-zone damping: the z `domain end` coordinate read from y_grid_field",
+             "3D grid with ny != nz, width >= 1 (z-back slab)"),
 }
 
 
@@ -150,7 +175,7 @@ def main():
                 ev.update(json.load(open(os.path.join(d, evn))))
         meta = {
             "breaks_property": sid[:3],
-            "round": 5 if sid.endswith("e") else 4 if sid.endswith("d") else 3 if sid.endswith("c") else 2 if sid.endswith("b") else 1,
+            "round": 6 if sid.endswith("f") else 5 if sid.endswith("e") else 4 if sid.endswith("d") else 3 if sid.endswith("c") else 2 if sid.endswith("b") else 1,
             "change": what,
             "files": files,
             "needs_to_manifest": needs,
